@@ -471,18 +471,19 @@ class WebSocketApp:
 
         def check() -> bool:
             if self.ping_timeout:
-                has_timeout_expired = (
-                    time.time() - self.last_ping_tm > self.ping_timeout
-                )
+                # The ping thread stamps last_ping_tm concurrently: read it
+                # once, so that all three tests look at the same ping.
+                last_ping_tm = self.last_ping_tm
+                has_timeout_expired = time.time() - last_ping_tm > self.ping_timeout
                 has_pong_not_arrived_after_last_ping = (
-                    self.last_pong_tm - self.last_ping_tm < 0
+                    self.last_pong_tm - last_ping_tm < 0
                 )
                 has_pong_arrived_too_late = (
-                    self.last_pong_tm - self.last_ping_tm > self.ping_timeout
+                    self.last_pong_tm - last_ping_tm > self.ping_timeout
                 )
 
                 if (
-                    self.last_ping_tm
+                    last_ping_tm
                     and has_timeout_expired
                     and (
                         has_pong_not_arrived_after_last_ping
